@@ -47,6 +47,25 @@ def cases(tier, rng):
         f = rng.choice(["f", "g", "point", "h_2"])
         el = [canon(depth - 1) for _ in range(n)]
         return cplx(f, *[e[0] for e in el]), f + "(" + ", ".join(e[1] for e in el) + ")"
+    # Display of floats (shortest decimal that reads back, no exponent): model against implementation on decimal
+    # fractions, powers of ten and two, neighbours of binade boundaries, subnormals, extremes and random bit patterns
+    from lib.sx import flt, fbits
+    import struct
+    fl = [0.1, 0.2, 0.3, 1/3, 2/3, 0.7, 1e23, 1e22, 1e21, 2.0**70, 123456789.123456789, 0.000001, 1e-7, 5e-324, 2.2250738585072014e-308,
+          1.7976931348623157e308, 9007199254740993.0, 4.35, 0.285, 1.005, 2.675, 1e15, 1e16, 1e17, 123456.789e3, 3.141592653589793,
+          2.718281828459045, 100.0, 0.5, 1.0, -0.1, -2.5, 8.41e21, 9.5367431640625e-07, 2.0**-1074, 2.0**-1022, 2.0**52, 2.0**53 + 2]
+    for k in range(-30, 31): fl += [10.0 ** k, 2.0 ** k, 2.0 ** k * (1 + 2.0 ** -52), 2.0 ** k * (1 - 2.0 ** -53)]
+    nf = 1500 if tier == "quick" else 40000
+    for _ in range(nf):
+        r = rng.random()
+        if r < 0.35: fl.append(round(rng.uniform(-1000, 1000), rng.randint(0, 6)))
+        elif r < 0.55: fl.append(rng.randint(1, 10**rng.randint(1, 17)) / 10.0 ** rng.randint(0, 20))
+        elif r < 0.75: fl.append(rng.uniform(0, 1) * 10.0 ** rng.randint(-300, 300))
+        else:
+            b = rng.getrandbits(64)
+            if (b >> 52) & 0x7ff != 0x7ff: fl.append(struct.unpack("<d", struct.pack("<Q", b))[0])
+    for x in dict.fromkeys(fl):
+        out.append(("(show-term %s)" % flt(x), "float/show"))
     m = 2500 if tier == "quick" else 40000
     seen = set()
     for _ in range(m):
@@ -61,7 +80,9 @@ RULE = ("Decimal texts of 64-bit integers (extremes, -300..300, random magnitude
         "list, as operand of `=`, and as arguments of f(v, -v). Relation on the implementation's results: the integer comes "
         "back in every context. Canonical terms (atoms [a-z][A-Za-z0-9_]*, integers, variables, $_, complex terms, lists with and "
         "without tail variable or `$_` tail, nested to depth 3): Display of the term gives its canonical text and that text parses "
-        "back to the term (theorem C19_roundtrip_terms; both checked on the implementation). Non-trivial = negative or at least 10 digits.")
+        "back to the term (theorem C19_roundtrip_terms; both checked on the implementation). Display of floats - the shortest "
+        "decimal that reads back, written without exponent - model against implementation on decimal fractions, powers of ten and "
+        "two with their neighbours, subnormals, extremes and random bit patterns. Non-trivial = negative or at least 10 digits.")
 
 def nontrivial(case, tag, result):
     if tag.startswith("canonical"): return "(l " in case or "(c " in case or "[" in pc.uncase(case)[1] if case.startswith("(parse") else True
